@@ -347,4 +347,112 @@ theorem commit_preserves {n : Node} (hI : Inv n) {c : Nat} (hc : c < n.nch) {hEf
       rw [e1, e2]
       exact this
 
+
+/-- The invariant only looks at: channel count, policy, invoices, the per-channel amounts of the payment
+    entries, the *current* commitments, the persisted invoices and the support list. -/
+theorem Inv.transfer {n n' : Node} (hI : Inv n) (e1 : n'.nch = n.nch) (e2 : n'.pol = n.pol)
+    (e3 : n'.invoices = n.invoices)
+    (e4 : ∀ h c, getIn (n'.payments h) c = getIn (n.payments h) c ∧ getOut (n'.payments h) c = getOut (n.payments h) c)
+    (e5 : ∀ c, (n'.chans c).hcur = (n.chans c).hcur ∧ (n'.chans c).ccur = (n.chans c).ccur)
+    (e6 : n'.disk.invoices = n.disk.invoices) (e7 : ∀ h, h ∈ n.known → h ∈ n'.known) : Inv n' := by
+  have hout : ∀ c h, outL n' c h = outL n c h := by
+    intro c h; simp only [outL, (e5 c).1, (e5 c).2]
+  have hin : ∀ c h, inL n' c h = inL n c h := by
+    intro c h; simp only [inL, (e5 c).1, (e5 c).2]
+  refine ⟨?_, ?_, ?_, ?_, ?_⟩
+  · intro h c hc
+    rw [hin, (e4 h c).1]
+    exact hI.inSync h c (e1 ▸ hc)
+  · intro h hne c hc
+    rw [hout, (e4 h c).2]
+    exact hI.outSync h (e3 ▸ hne) c (e1 ▸ hc)
+  · intro h inv hinv
+    have := hI.bal h inv (e3 ▸ hinv)
+    simp only [totalOut, totalIn] at *
+    rw [e1, e2]
+    simp only [hout, hin]
+    exact this
+  · intro h; rw [e6, e3]; exact hI.disk h
+  · intro h hne; exact e7 h (hI.known h (e3 ▸ hne))
+
+theorem cpSign_preserves {n n' : Node} {c : Nat} {r : Bool} {info : Info} (hI : Inv n)
+    (h : n.cpSign c r info = (n', .ok)) : Inv n' := by
+  unfold Node.cpSign at h
+  dsimp only at h
+  by_cases hc : c ≥ n.nch
+  · simp [hc] at h
+  · by_cases hr : (r && info != (n.chans c).ccur) = true
+    · simp [hc, hr] at h
+    · by_cases hn : (!r && (n.chans c).cpNum != (n.chans c).cpRev + 1) = true
+      · simp [hc, hr, hn] at h
+      · simp only [hc, hr, hn, if_false] at h
+        cases hv : validate n c (n.chans c).hcur info with
+        | ok =>
+          simp only [hv] at h
+          rw [if_neg (by simp), if_neg (by simp)] at h
+          by_cases hq : (r && !((n.chans c).cpNum == 1 || decide ((n.chans c).cpNum ≥ (n.chans c).cpRev + 2))) = true
+          · rw [if_pos hq] at h; simp at h
+          · rw [if_neg hq] at h
+            cases h
+            exact commit_preserves hI (Nat.lt_of_not_ge hc) hv rfl rfl
+        | err => simp [hv] at h
+        | panic => simp [hv] at h
+
+theorem revoke_preserves {n n' : Node} {c : Nat} (hI : Inv n) (h : n.revoke c = (n', .ok)) : Inv n' := by
+  unfold Node.revoke at h
+  dsimp only at h
+  by_cases hc : c ≥ n.nch
+  · simp [hc] at h
+  · simp only [hc, if_false] at h
+    cases hnx : (n.chans c).hnext with
+    | none => simp [hnx] at h
+    | some info =>
+      simp only [hnx] at h
+      cases hv : validate n c info (n.chans c).ccur with
+      | ok =>
+        simp only [hv] at h
+        cases h
+        exact commit_preserves hI (Nat.lt_of_not_ge hc) hv rfl rfl
+      | err => simp [hv] at h
+      | panic => simp [hv] at h
+
+theorem setChan_hnext_transfer {n : Node} (hI : Inv n) (c : Nat) (st' : ChanSt)
+    (e1 : st'.hcur = (n.chans c).hcur) (e2 : st'.ccur = (n.chans c).ccur) : Inv (n.setChan c st') := by
+  refine hI.transfer rfl rfl rfl (fun _ _ => ⟨rfl, rfl⟩) ?_ rfl (fun _ hk => hk)
+  intro c'
+  simp only [Node.setChan, upd]
+  split
+  · rename_i e; subst e; exact ⟨e1, e2⟩
+  · exact ⟨rfl, rfl⟩
+
+theorem hValidate_preserves {n n' : Node} {c : Nat} {r : Bool} {info : Info} (hI : Inv n)
+    (h : n.hValidate c r info = (n', .ok)) : Inv n' := by
+  unfold Node.hValidate at h
+  dsimp only at h
+  by_cases hc : c ≥ n.nch
+  · simp [hc] at h
+  · by_cases hr : (r && info != (n.chans c).hcur) = true
+    · simp [hc, hr] at h
+    · simp only [hc, hr, if_false] at h
+      cases hv : validate n c info (n.chans c).ccur with
+      | ok =>
+        simp only [hv] at h
+        cases h
+        split
+        · exact hI
+        · exact setChan_hnext_transfer hI c _ rfl rfl
+      | err => simp [hv] at h
+      | panic => simp [hv] at h
+
+theorem cpRevoke_preserves {n n' : Node} {c : Nat} (hI : Inv n) (h : n.cpRevoke c = (n', .ok)) : Inv n' := by
+  unfold Node.cpRevoke at h
+  dsimp only at h
+  by_cases hc : c ≥ n.nch
+  · simp [hc] at h
+  · simp only [hc, if_false] at h
+    split at h
+    · cases h
+      exact setChan_hnext_transfer hI c _ rfl rfl
+    · simp at h
+
 end VlsModel.Payments
